@@ -209,6 +209,8 @@ pub const MAX_DISTINCT: usize = 4_000_000;
 pub const MAX_VIOLATION_SIGS: usize = 64;
 /// violations seen so far by any thread (first occurrence of a signature per context), for `start_deadline`
 static PARTIAL: std::sync::Mutex<Vec<Json>> = std::sync::Mutex::new(Vec::new());
+/// `<out>.partial` and the header fields of a partial part file
+static PARTIAL_FILE: std::sync::OnceLock<(String, Json)> = std::sync::OnceLock::new();
 
 pub const SAMPLES_PER_CELL: u64 = 2;
 pub const MAX_SAMPLES: usize = 400;
@@ -440,6 +442,16 @@ impl Ctx {
                         .set("count", Json::i(1))
                         .set("event", ev.to_json()),
                 );
+                // and onto disk at once: a process that is killed or aborts later (allocation failure, stack
+                // overflow inside the library) must not take the observation with it
+                if let Some((path, head)) = PARTIAL_FILE.get() {
+                    let mut viols = Json::arr();
+                    for v in g.iter() {
+                        viols.push(v.clone());
+                    }
+                    let j = head.clone().set("partial", Json::Bool(true)).set("violations", viols);
+                    let _ = std::fs::write(path, j.to_string());
+                }
             }
         }
         self.violations.insert(
@@ -646,6 +658,14 @@ impl Cli {
     /// file and exits with status 3.  The driver reports violations from a partial part (they were observed); a
     /// partial part without violations is inconclusive, never "held".
     fn start_deadline(&self, property: &str) {
+        if let Some(o) = &self.out {
+            let head = Json::obj()
+                .set("property", Json::s(property))
+                .set("tier", Json::s(&self.tier))
+                .set("profile", Json::s(&self.profile))
+                .set("seed", Json::i(self.seed));
+            let _ = PARTIAL_FILE.set((format!("{}.partial", o), head));
+        }
         let secs: u64 = match self.extra.get("deadline").and_then(|v| v.parse().ok()) {
             Some(s) => s,
             None => return,
